@@ -297,6 +297,10 @@ func runC07(c *fw.Ctx) {
 		// +0.0 and -0.0 are the same value (==), in every position
 		{L(F(0)), L(F(math.Copysign(0, -1)))}, {O("z", F(math.Copysign(0, -1))), O("z", F(0))}, {L(I(1), L(F(math.Copysign(0, -1)), F(0))), L(I(1), L(F(0), F(math.Copysign(0, -1))))},
 		{L(F(math.Copysign(0, -1))), L(I(0))},
+		// infinities are values like any other (NaN-free data): equal to themselves, different from each other and from the
+		// largest finite numbers
+		{L(F(math.Inf(1))), L(F(math.Inf(1)))}, {O("k", F(math.Inf(-1)), "l", L(F(math.Inf(1)))), O("l", L(F(math.Inf(1))), "k", F(math.Inf(-1)))},
+		{L(F(math.Inf(1))), L(F(math.Inf(-1)))}, {L(F(math.Inf(1))), L(F(math.MaxFloat64))}, {L(I(1), L(F(math.Inf(-1)))), L(I(1), L(F(-math.MaxFloat64)))},
 		{O("a", I(1)), O("a", I(1), "b", spec.NilV())},
 	}
 	c.Cases("pinned", len(pins), true, func(i int, r *rng.R) {
@@ -600,7 +604,7 @@ func runC07(c *fw.Ctx) {
 		}
 		a := spec.GenTree(r, spec.Opts{MaxDepth: r.Range(1, 3), MaxWidth: r.Range(1, 5), Root: root, ScalarBias: r.Range(5, 8)})
 		// make sure some floats are there
-		extra := []float64{0.1, 1.5, -2.25, 1e21, 1e-7, 123456.789, 0.30000000000000004, 5e-324, 1.7976931348623157e308, -0.0, 100}
+		extra := []float64{0.1, 1.5, -2.25, 1e21, 1e-7, 123456.789, 0.30000000000000004, 5e-324, 1.7976931348623157e308, -0.0, 100, math.Inf(1), math.Inf(-1)}
 		for k := r.Range(1, 3); k > 0; k-- {
 			f := spec.FloatV(extra[r.Intn(len(extra))])
 			if a.K == spec.List {
